@@ -145,10 +145,13 @@ def _evaluate(case, td):
         if r[0] != "ok":
             # the complete file itself cannot be summarised: not this property's subject (C12); skip the trace
             return Outcome(nontrivial=False, classes=("complete-file-not-summarisable:%s" % name,))
-    part = os.path.join(td, "part.pkl.gz")
+    # "...or the file is later truncated": the prefixes overwrite the very path that was summarised while complete,
+    # in the same process, so results remembered from the complete file cannot stand in for reading the file
+    part = trace
     accepted = 0
     rejected = 0
-    for L in range(len(blob)):
+    order = list(range(len(blob) - 1, -1, -1)) if len(blob) % 2 else list(range(len(blob)))
+    for L in order:
         with open(part, "wb") as f:
             f.write(blob[:L])
         got = _run(part, outdir)
@@ -157,6 +160,15 @@ def _evaluate(case, td):
                 rejected += 1
                 continue
             accepted += 1
+            if L < len(blob) - 64:
+                # more than the gzip trailer and the last deflate bytes are missing: the file cannot contain every entry,
+                # so a successful summary (even one equal to the complete file's) was not read from what is on disk
+                raise Violation(
+                    "partial-trace-accepted/" + name,
+                    "%s succeeded on a file holding only the first %d of %d bytes of the trace (results %s the complete file's)" % (name, L, len(blob), "equal to" if r[1] == ref[name][1] else "different from"),
+                    dict(command=name, kind=case["kind"]),
+                    dict(prefix=L, size=len(blob)),
+                )
             if r[1] != ref[name][1]:
                 diff = [n for n in r[1] if r[1][n] != ref[name][1][n]]
                 raise Violation(
